@@ -4,6 +4,7 @@ package compat
 
 import (
 	"fmt"
+	"google.golang.org/grpc/mem"
 	"reflect"
 	"strings"
 	"testing"
@@ -200,6 +201,18 @@ func TestVerifRepairPaths(t *testing.T) {
 							if rerr := convertAndRepairInvalidUTF8(data, newType.New().Interface()); rerr != nil {
 								missed++
 								fmt.Fprintf(w, "MISSED %s %s via convertAndRepairInvalidUTF8 into %s: %v\n", rt.PkgPath()+"."+rt.Name(), vpPathString(rt, path), newType.Descriptor().FullName(), rerr)
+							}
+							// ... and through the process-wide codec gRPC uses, which has just been handed a message of the
+							// same type that nothing can repair (invalid UTF-8 outside any failure message): what the codec
+							// met before must not matter
+							if other := vpBuild(rt, path, &failure122.Failure{Message: "fine"}); vcCorruptOther(other, 0) {
+								if od, oerr := other.Interface().(interface{ Marshal() ([]byte, error) }).Marshal(); oerr == nil {
+									_ = GetCodec().Unmarshal(mem.BufferSlice{mem.SliceBuffer(od)}, newType.New().Interface())
+								}
+							}
+							if cerr := GetCodec().Unmarshal(mem.BufferSlice{mem.SliceBuffer(data)}, newType.New().Interface()); cerr != nil {
+								missed++
+								fmt.Fprintf(w, "MISSED %s %s through the codec (after an unrepairable message of the same type): %v\n", rt.PkgPath()+"."+rt.Name(), vpPathString(rt, path), cerr)
 							}
 						}
 					}
